@@ -21,6 +21,10 @@ Next ==
                /\ Check(e.inc16 = e.one16, "C19", "Incremental16", l, [len |-> Len(e.bytes)])
                /\ Check(e.one32 = Crc32(e.bytes), "C19", "OneShot32", l, [len |-> Len(e.bytes), got |-> e.one32])
                /\ Check(e.inc32 = e.one32, "C19", "Incremental32", l, [len |-> Len(e.bytes)])
+          [] e.ev = "long" ->    \* inputs of 4 KiB .. 256 KiB: one-shot value against the byte-wise feed (whose steps the update rows judge)
+               /\ Bump(6)
+               /\ Check(e.inc16 = e.one16, "C19", "Incremental16", l, [len |-> e.len])
+               /\ Check(e.inc32 = e.one32, "C19", "Incremental32", l, [len |-> e.len])
           [] e.ev = "two" ->
                /\ BumpBy(7, 256)
                /\ Check(\A b \in 0..255 : e.c16[b + 1] = Crc16(<<e.a, b>>), "C19", "OneShot16", l, [len |-> 2, a |-> e.a])
